@@ -1,3 +1,4 @@
+import Generated.Facts
 import SsoSpec.C07
 import SsoSpec.C04
 import SsoSpec.C16
@@ -54,6 +55,17 @@ theorem C19_revoke_keyed_by_token :
 theorem C19_revoke_merged_only_for_same_token {α : Type} (slash : α) (revoke tok₁ tok₂ : List α) (h : slash ∉ revoke)
     (hk : Sso.SfWrappers.compositeKey slash revoke tok₁ = Sso.SfWrappers.compositeKey slash revoke tok₂) : tok₁ = tok₂ :=
   (Sso.SfWrappers.C16_composite_key_injective slash revoke revoke tok₁ tok₂ h h hk).2
+
+/-- Tie (T1): the proxy's sign-out handler and the signed sign-out URL — call/branch/store skeletons regenerated from the source on every run; the expectations below are
+what the model in this file transliterates. A structural edit of any of these functions breaks this theorem and sends the
+check searching for a failing input. -/
+theorem C19_wiring :
+    Sso.Generated.skel_proxy_SignOut =
+      ["call:ClearSession", "if{", "if{", "}", "else{", "}", "}", "call:GetSignOutURL", "call:String", "call:Redirect"] ∧
+    Sso.Generated.skel_sso_GetSignOutURL =
+      ["call:Data", "call:Now", "call:String", "call:ParseQuery", "call:Add", "call:Unix", "call:Sprint", "call:Set", "call:signRedirectURL", "call:Set", "call:Encode", "store:a.RawQuery", "return"] ∧
+    Sso.Generated.skel_sso_signRedirectURL =
+      ["call:?", "call:New", "call:?", "call:Write", "call:Unix", "call:Sprint", "call:?", "call:Write", "call:Sum", "call:EncodeToString", "return"] := by decide
 
 end Sso.AuthN
 
